@@ -258,7 +258,8 @@ ReqsC08 == <<
   MkReq("http", "x.com", "/ab-?ab=1&ba=2", "xhr", "abb.com"),
   MkReq("https", "ab.ba", "/?ab=1", "document", "ba.com"),
   MkReq("https", "s.ab.ba", "/ab/ab-a", "sub_frame", "x.com"),
-  MkReq("https", "xba.com", "/x/ab", "script", "")
+  MkReq("https", "xba.com", "/x/ab", "script", ""),
+  MkReq("https", "ab.ba", "/ab.", "script", "s.ba.com")
 >>
 
 --------------------------------------------------------------------------
@@ -273,7 +274,8 @@ PoolC13 == SetToSeqD(
   \* directives naming 'X' while only 'X.js' is loaded, a permissioned non-script resource
   \cup { RD("redirect", "r1.js", "none"), [RD("redirect-rule", "r1.js", "none") EXCEPT !.exc = TRUE],
          [RD("redirect-rule", "r1", "10") EXCEPT !.exc = TRUE], RD("redirect", "nj", "10"), RD("redirect-rule", "njalias", "none"),
-         RD("redirect", "permcss", "1"), [RD("redirect-rule", "nj.js", "none") EXCEPT !.exc = TRUE] }
+         RD("redirect", "permcss", "1"), [RD("redirect-rule", "nj.js", "none") EXCEPT !.exc = TRUE],
+         RD("redirect", "aqa", "none"), RD("redirect", "zqb", "none"), RD("redirect", "q1", "none") }
   \cup { [R0 EXCEPT !.body = B("/ab")], [R0 EXCEPT !.body = B("/ab"), !.exc = TRUE],
          [R0 EXCEPT !.body = B("/ab"), !.important = TRUE],
          [RD("redirect", "r2", "1") EXCEPT !.important = TRUE],
@@ -291,7 +293,10 @@ BaseC13x == << [W("/ab") EXCEPT !.mkind = "redirect-rule", !.mval = "r1"],
                [W("/ab") EXCEPT !.mkind = "redirect-rule", !.mval = "r2", !.prio = "1"], W("/ab") >>
 XR(p, kind, res) == [W(p) EXCEPT !.exc = TRUE, !.mkind = kind, !.mval = res]
 PoolC13x == << XR("-x", "redirect-rule", "r1"), XR("-y", "redirect-rule", "r2"), XR("-x", "redirect-rule", "r2"), XR("-y", "redirect-rule", "r1"),
-               XR("-x", "redirect", "r1"), XR("-y", "redirect", "r2"), XR("-z", "redirect-rule", "r1"), XR("-z", "redirect-rule", "r2") >>
+               XR("-x", "redirect", "r1"), XR("-y", "redirect", "r2"), XR("-z", "redirect-rule", "r1"), XR("-z", "redirect-rule", "r2"),
+               \* directives for one resource with different priorities, same mask and bucket (a fused rule would keep one priority)
+               [W("-x") EXCEPT !.mkind = "redirect-rule", !.mval = "r1", !.prio = "10"], [W("-y") EXCEPT !.mkind = "redirect-rule", !.mval = "r1"],
+               [W("-y") EXCEPT !.mkind = "redirect-rule", !.mval = "r1", !.prio = "10"], [W("-x") EXCEPT !.mkind = "redirect-rule", !.mval = "r1"] >>
 ReqsC13x == << MkReq("https", "ab.ba", "/ab-x", "script", "x.com"), MkReq("https", "ab.ba", "/ab-y", "script", "x.com"),
                MkReq("https", "ab.ba", "/ab-x-y", "script", "x.com"), MkReq("https", "ab.ba", "/ab", "script", "x.com"),
                MkReq("https", "ab.ba", "/ab-z-x", "image", "ab.ba") >>
@@ -335,7 +340,13 @@ ResSeqC13 == <<
   [name |-> "al1", aliases |-> {}, redirectable |-> TRUE, perm |-> 0, kind |-> "text/plain", content |-> "late-al1"],
   [name |-> "zz", aliases |-> {"r2"}, redirectable |-> TRUE, perm |-> 0, kind |-> "text/plain", content |-> "late-zz"],
   \* an ALIAS that re-uses an existing alias: refused, and the existing alias keeps pointing at r1
-  [name |-> "yy", aliases |-> {"al1"}, redirectable |-> TRUE, perm |-> 0, kind |-> "text/plain", content |-> "late-yy"]
+  [name |-> "yy", aliases |-> {"al1"}, redirectable |-> TRUE, perm |-> 0, kind |-> "text/plain", content |-> "late-yy"],
+  \* refused because ONE of its aliases is taken; its other alias must not stay registered, even when a resource
+  \* with the same name is accepted afterwards (two spellings: which alias is looked at first is an implementation matter)
+  [name |-> "q1", aliases |-> {"aqa", "al1"}, redirectable |-> TRUE, perm |-> 0, kind |-> "text/plain", content |-> "late-q1"],
+  [name |-> "q1", aliases |-> {}, redirectable |-> TRUE, perm |-> 0, kind |-> "text/plain", content |-> "q1"],
+  [name |-> "q2", aliases |-> {"zqb", "al1"}, redirectable |-> TRUE, perm |-> 0, kind |-> "text/plain", content |-> "late-q2"],
+  [name |-> "q2", aliases |-> {}, redirectable |-> TRUE, perm |-> 0, kind |-> "text/plain", content |-> "q2"]
 >>
 ResC13 == EffectiveStore(ResSeqC13)
 
@@ -374,7 +385,10 @@ PoolC15 == <<
   [R0 EXCEPT !.left = "dpipe", !.body = B("ab.ba^")], [CS("d1") EXCEPT !.badfilter = TRUE],
   [CS("d1") EXCEPT !.important = TRUE],
   \* directives that contain '=' (hash / nonce sources) and agree up to the first '='
-  CS("s 'h-a='"), CS("s 'h-b='"), [CS("s 'h-b='") EXCEPT !.exc = TRUE]
+  CS("s 'h-a='"), CS("s 'h-b='"), [CS("s 'h-b='") EXCEPT !.exc = TRUE],
+  \* pattern-less exceptions filed under the source domain (found before the rule they cancel)
+  [R0 EXCEPT !.body = B("*"), !.mkind = "csp", !.mval = "d1", !.exc = TRUE, !.dom = {"x.com"}],
+  [R0 EXCEPT !.body = B("*"), !.mkind = "csp", !.mval = "d2", !.exc = TRUE, !.dom = {"x.com"}]
 >>
 ReqsC15 == SetToSeqD(
   { MkReq(sc, "ab.ba", "/", al, src) : sc \in {"https", "ftp"},
